@@ -345,7 +345,10 @@ def check(ctx):
            key="C09.3:is_so3:tolerance")
     bottom = T("list", const(0.0), const(0.0), const(0.0), const(1.0))
     for name, arg in (("is_se3", "p"), ("is_sim3", "p")):
-        it = Interp(prog)
+        # the block accessor is looked through: so3_from_se3(p) is p[:3, :3]
+        # (C09.1 decides that)
+        it = Interp(prog, inline=lambda fn: fn.qualname ==
+                    L + "so3_from_se3")
         res = it.run(prog.func(L + name))
         ret = res.ret
         pa = tm.param(arg)
